@@ -327,6 +327,21 @@ def shard(desc):
                 mk = c.op('O', 0)
                 cases.append(c)
                 plan.append((c, typ, [(mk, 'zero_weight', table(typ, 'zero_weight', n=n), 'n=%d, all weights zero' % n)]))
+            # total weight exactly zero through cancelling weights (w, -w): the doc comments promise NaN for
+            # "if the sum of weights is zero", not only for all-zero weights
+            for n in (2, 3, 4):
+                c = Case(nid(), typ)
+                c.op('N', 0)
+                w = 10.0 ** rng.uniform(-3, 3)
+                ws = [w, -w] + ([0.0] if n >= 3 else []) + ([0.0] if n >= 4 else [])
+                xs_ = rng.sample([v for v in vals if v == v], n)
+                flat = []
+                for a, b in zip(xs_, ws):
+                    flat += [a, b]
+                c.op('A', 0, flat)
+                mk = c.op('O', 0)
+                cases.append(c)
+                plan.append((c, typ, [(mk, 'zero_weight', table(typ, 'zero_weight', n=n), 'n=%d, weights cancel to zero' % n)]))
     logs = run_driver(desc['binary'], ''.join(c.text() for c in cases))
     for c, typ, marks in plan:
         recs = logs.get(c.id)
